@@ -41,7 +41,7 @@ St0 == [lst |-> <<>>, corrupt |-> FALSE]
 NewLst(s, e) ==
   CASE e.op = "new"     -> e.items
     [] e.op = "append"  -> Append(s.lst, e.x)
-    [] e.op = "iadd"    -> s.lst \o e.xs
+    [] e.op = "iadd"    -> IF "self" \in DOMAIN e /\ e.self THEN s.lst \o s.lst ELSE s.lst \o e.xs      \* c += c doubles the list
     [] e.op = "setitem" -> IF e.i < Len(s.lst) THEN [s.lst EXCEPT ![e.i + 1] = e.x] ELSE s.lst
     [] e.op = "delitem" -> IF e.i < Len(s.lst) THEN RemoveAt(s.lst, e.i + 1) ELSE s.lst
     [] e.op = "clear"   -> <<>>
